@@ -364,8 +364,10 @@ class BaseGeo(BaseTransform):
             # using private attributes to avoid triggering `.add` method (see #530 bug)
             parent = self._parent
             self._parent = None
-            obj_copy = deepcopy(self)
-            self._parent = parent
+            try:
+                obj_copy = deepcopy(self)
+            finally:
+                self._parent = parent
         else:
             obj_copy = deepcopy(self)
 
